@@ -302,6 +302,34 @@ fn exec_op(
                 Err(e) => json!({"err": e.to_string()}),
             }
         }
+        "burst" => {
+            // `writers` threads append `n` frames each, concurrently (unique (w, s) metas)
+            let n = req["n"].as_u64().unwrap_or(1);
+            let writers = req["writers"].as_u64().unwrap_or(1);
+            let ctx = parse_id(&req["ctx"]).unwrap_or(xs::store::ZERO_CONTEXT);
+            let topic = req["topic"].as_str().unwrap_or("burst").to_string();
+            let tag = req["tag"].as_u64().unwrap_or(0);
+            let mut hs = vec![];
+            for w in 0..writers {
+                let store = store.clone();
+                let topic = topic.clone();
+                hs.push(std::thread::spawn(move || {
+                    let mut ids = vec![];
+                    for s in 0..n {
+                        if let Ok(f) = store.append(Frame::builder(topic.clone(), ctx).meta(json!({"w": w, "s": s, "tag": tag})).build()) {
+                            ids.push(f.id.to_string());
+                        }
+                    }
+                    ids
+                }));
+            }
+            let mut all = vec![];
+            for h in hs {
+                all.extend(h.join().unwrap_or_default());
+            }
+            all.sort();
+            json!({"ok": all})
+        }
         "append_nested" => {
             // meta nested `depth` levels, built here because the transport itself is JSON
             let depth = req["depth"].as_u64().unwrap_or(0) as usize;
@@ -522,6 +550,10 @@ fn exec_op(
                         None => g.0.len() >= min,
                     };
                     if hit || g.1 || t0.elapsed() >= wait {
+                        if let Some(from) = req["from"].as_u64() {
+                            let from = (from as usize).min(g.0.len());
+                            return json!({"items": g.0[from..].to_vec(), "total": g.0.len(), "closed": g.1, "satisfied": hit});
+                        }
                         if req["digest"].as_bool().unwrap_or(false) {
                             let items: Vec<Value> = g.0.iter().map(|f| json!([f.id.to_string(), frame_digest(f).to_string(), f.topic])).collect();
                             return json!({"items": items, "closed": g.1, "satisfied": hit});
